@@ -215,6 +215,13 @@ func (a *asyncFifoRetryImpl) retry(ctx context.Context) (breakLoop bool) {
 			if errors.Is(err, storage.ErrUncertainResult) {
 				state = retryUnknownPut
 			}
+			if !errors.Is(err, storage.ErrCASFailed) {
+				// the rewrite did not land, or its outcome is unknown as well (then the dispatcher has queued it, but
+				// that entry only repairs the rewrite if it landed). Unless the key was changed by someone else in
+				// the meantime (failed compare), keep this entry so that the original write still gets repaired and
+				// its event emitted once the storage answers again. Retry in next tick.
+				return true
+			}
 		}
 	}
 
